@@ -38,6 +38,8 @@ type Plan struct {
 	MaxShards   int  // 0 = default
 	CaseTimeout int  // seconds, 0 = default 10
 	Env         []string
+	// AltToolchain: run the plan once more from bin/vcheck.alt (built with another Go toolchain) when present
+	AltToolchain bool
 }
 
 // Violation is one refutation witness.
